@@ -62,17 +62,24 @@ func checkC05(w *World, r *Report) {
 		execErr := w.Method("xpath", "context", "execError")
 		mk := w.Func("xpath", "NewInvalidDatum")
 		efd, _ := w.FuncDecl(execErr)
-		always := len(efd.Body.List) == 1
-		if always {
-			es, ok := efd.Body.List[0].(*ast.ExprStmt)
-			always = ok
-			if ok {
-				ce, ok := es.X.(*ast.CallExpr)
-				id, ok2 := ast.Unparen(ce.Fun).(*ast.Ident)
-				always = ok && ok2 && id.Name == "panic"
+		// no way out of execError but the panic: no block of it returns
+		always := false
+		if ef := w.SSAFunc(execErr); ef != nil {
+			always = true
+			panics := 0
+			for _, b := range ef.Blocks {
+				switch b.Instrs[len(b.Instrs)-1].(type) {
+				case *ssa.Return:
+					if b != ef.Recover {
+						always = false
+					}
+				case *ssa.Panic:
+					panics++
+				}
 			}
+			always = always && panics > 0 && ef.Recover == nil
 		}
-		r.Check(always, "R05.10", "context.execError always panics", efd.Pos(), "body is a single panic(…)", "execError can return: the invalidDatum its callers return afterwards may become the result of a run")
+		r.Check(always, "R05.10", "context.execError always panics", efd.Pos(), "every way out is a panic", "execError can return: the invalidDatum its callers return afterwards may become the result of a run")
 		for _, fd := range funcDecls(xp) {
 			if fd.Body == nil || isTestFile(w, fd.Pos()) {
 				continue
